@@ -17,6 +17,7 @@ EXPLANATION = (
     "inverse-table agreement of the EOFAction <-> atom conversions."
 )
 ASSUMPTIONS = ["std Read/Write/Seek implementations of the wrapped OS objects behave as documented"]
+HANDLES_CONFIGS = True   # iterates ctx.configs() itself (enum Stream differs per feature configuration)
 
 CONSUMING = re.compile(r"::(read_char|consume|read|read_exact|read_to_end|read_to_string|read_line|read_until|seek)$")
 
@@ -111,3 +112,49 @@ def run(ctx, R):
             inv = {a: v for v, a in fwd.items()}
             R.ob("C19:eof_action:decode-inverse@%s:%d" % (short(p), ln - F.items[p]["line"]), tbl == inv,
                  "stream option decoding maps %s, the inverse of as_atom is %s" % (tbl, inv), "%s (line %s)" % (F.where(p), ln))
+        if cfg != "default":
+            continue
+        # ---- "at_end_of_stream/1 agrees with the next read returning end-of-file; end_of_stream matches the data
+        # consumed": the position-vs-length classification is made in several places (file streams, in-memory cursors,
+        # set_stream_position) and must be the same three-way function everywhere: position == length is AT the end
+        # (the next read reports end of file once), only position > length is PAST it
+        n_cls = 0
+        for p, it in sorted(F.items.items()):
+            if it["file"] != "src/machine/streams.rs" or it["kind"] not in ("Fn", "AssocFn"):
+                continue
+            ph = F.hir(p)
+            for n in walk(ph["body"]):
+                # (a) `*past_end_of_stream = a OP b`
+                if n["k"] == "Assign" and any(x["k"] in ("Field", "Path") and (x.get("name") == "past_end_of_stream" or res_name(x) == "past_end_of_stream") for x in walk(n["lhs"])) \
+                        and n["rhs"]["k"] == "Binary" and n["rhs"]["op"] in ("Lt", "Le", "Gt", "Ge", "Eq", "Ne"):
+                    n_cls += 1
+                    op = n["rhs"]["op"]
+                    a_is_len = any(x["k"] == "MethodCall" and x["name"] == "len" for x in walk(n["rhs"]["a"]))
+                    if a_is_len:
+                        op = {"Lt": "Gt", "Le": "Ge", "Gt": "Lt", "Ge": "Le"}.get(op, op)
+                    R.ob("C19:past-end:strictly-beyond-length:%s" % short(p), op == "Gt",
+                         "%s sets past_end_of_stream from `position %s length`: a stream positioned exactly at its length is AT the end (the next read reports end of file and only then "
+                         "is the stream past it); `>=` makes at_end_of_stream/1 and the end_of_stream property say `past` one read early" % (short(p), op), F.where(p))
+                # (b) match position.cmp(&length) { ... => AtEndOfStream::X }
+                if n["k"] == "Match" and n["scrut"]["k"] == "MethodCall" and n["scrut"]["name"] == "cmp":
+                    tbl = {}
+                    for arm in n["arms"]:
+                        o = None
+                        for leaf in pat_leaves(arm["pat"]):
+                            rn = res_name(leaf) or ""
+                            if "Ordering::" in rn:
+                                o = rn.rsplit("::", 1)[1]
+                        v = None
+                        for x in walk(arm["body"]):
+                            rn = res_name(x) or ""
+                            if x["k"] == "Path" and "AtEndOfStream::" in rn:
+                                v = rn.rsplit("::", 1)[1]
+                        if o and v:
+                            tbl[o] = v
+                    if tbl:
+                        n_cls += 1
+                        len_is_recv = any(x["k"] == "MethodCall" and x["name"] == "len" for x in walk(n["scrut"]["recv"]))
+                        want = {"Equal": "At", "Less": "Not", "Greater": "Past"} if not len_is_recv else {"Equal": "At", "Less": "Past", "Greater": "Not"}
+                        R.ob("C19:end-classification:%s@%d" % (short(p), n["ln"] - it["line"]), tbl == want,
+                             "%s classifies position against length as %s; the oracle is %s" % (short(p), tbl, want), F.where(p))
+        R.floor("position-vs-length classifications", n_cls, 3)
